@@ -1,5 +1,5 @@
 /* Reference implementation of the ares_slist contract (sorted doubly linked
- * list; equal keys keep insertion order; find returns the FIRST equal node).
+ * list; like the real skip list a new node goes BEFORE existing equal keys; find returns the FIRST equal node).
  * Used in protocol harnesses instead of the real skip list (checked against
  * the same contract in C19).  Nodes are individually allocated so that a use
  * of a destroyed node is a CBMC/ASan pointer failure. */
@@ -43,8 +43,8 @@ void ares_slist_replace_destructor(ares_slist_t *list, ares_slist_destructor_t d
 }
 static void slist_link(ares_slist_t *l, ares_slist_node_t *n)
 {
-  ares_slist_node_t *at = l->head; /* first node with key > n: insert before it */
-  while (at != NULL && l->cmp(n->data, at->data) >= 0)
+  ares_slist_node_t *at = l->head; /* first node with key >= n: insert before it (as the real skip list does) */
+  while (at != NULL && l->cmp(n->data, at->data) > 0)
     at = at->next;
   n->next = at;
   n->prev = (at != NULL) ? at->prev : l->tail;
